@@ -254,11 +254,26 @@ type YangType struct {
 
 // Equal returns true if y and t describe the same type.
 func (y *YangType) Equal(t *YangType) bool {
+	return y.equal(t, map[[2]*YangType]bool{})
+}
+
+// equal is Equal with a record of the pairs compared so far. The members of a
+// union are shared by the types derived from it, so without the record the
+// same pairs would be compared again and again (twice as often with every
+// level of two parallel families of union typedefs).
+func (y *YangType) equal(t *YangType, compared map[[2]*YangType]bool) (eq bool) {
 	switch {
 	case y == t:
 		return true
 	case y == nil || t == nil:
 		return false
+	}
+	pair := [2]*YangType{y, t}
+	if eq, ok := compared[pair]; ok {
+		return eq
+	}
+	defer func() { compared[pair] = eq }()
+	switch {
 	case
 		// Don't check the Name, it contains no information
 		y.Kind != t.Kind,
@@ -275,7 +290,7 @@ func (y *YangType) Equal(t *YangType) bool {
 		!ssEqual(y.POSIXPattern, t.POSIXPattern),
 		len(y.Range) != len(t.Range),
 		!y.Range.Equal(t.Range),
-		!tsEqual(y.Type, t.Type),
+		!tsEqual(y.Type, t.Type, compared),
 		!cmp.Equal(y.Enum, t.Enum, cmp.Comparer(enumTypeEqual)),
 		!cmp.Equal(y.Bit, t.Bit, cmp.Comparer(enumTypeEqual)):
 
@@ -320,14 +335,14 @@ func ssEqual(s1, s2 []string) bool {
 }
 
 // tsEqual returns true if the two Type slices are identical.
-func tsEqual(t1, t2 []*YangType) bool {
+func tsEqual(t1, t2 []*YangType, compared map[[2]*YangType]bool) bool {
 	if len(t1) != len(t2) {
 		return false
 	}
 	// For now we compare absolute pointers.
 	// This may be wrong.
 	for x, t := range t1 {
-		if !t.Equal(t2[x]) {
+		if !t.equal(t2[x], compared) {
 			return false
 		}
 	}
